@@ -40,9 +40,26 @@ for m in seeds:
     so.append("| %s | %s | %s | %s | %s |" % (m.get("id", ""), m.get("property", ""), esc(m.get("summary", ""))[:260], esc(m.get("needs_to_manifest", ""))[:220], esc(m.get("caught_by", ""))[:320]))
 seeds_md = "\n".join(so)
 
+# as-built table from the committed quick evidence
+ab = []
+ab.append("| id | engine(s) | level | subjects | quick: executions / states or distinct cases / wall | open findings | repaired | seeds caught |")
+ab.append("|---|---|---|---|---|---|---|---|")
+import glob as _g
+for pf in sorted(_g.glob(os.path.join(ROOT, "props.d", "C*.json"))):
+    c = json.load(open(pf)); pid = c["id"]
+    evp = os.path.join(ROOT, "evidence", pid + ".json")
+    ev = json.load(open(evp)) if os.path.exists(evp) else None
+    cov = ev["coverage"] if ev else {}
+    nf = len([k for k in findings if k["property"] == pid]); nx = len([k for k in fixed if k["property"] == pid])
+    sd = [m for m in seeds if m.get("property") == pid]
+    caught = len([m for m in sd if not str(m.get("caught_by", "")).startswith("NOT CAUGHT")])
+    dn = cov.get("states") if ev and ev["level"] == "model_checking" else cov.get("distinct_nontrivial")
+    ab.append("| %s | %s | %s | %s | %s / %s / %ss | %d | %d | %d of %d |" % (pid, c.get("engine", ""), c["level"], cov.get("subjects_covered", "?"), cov.get("evaluations", "?"), dn, ev["wall_s"] if ev else "?", nf, nx, caught, len(sd)))
+asbuilt_md = "\n".join(ab)
+
 path = os.path.join(ROOT, "DESIGN.md")
 s = open(path).read()
-for name, md in (("findings", findings_md), ("seeds", seeds_md)):
+for name, md in (("findings", findings_md), ("seeds", seeds_md), ("asbuilt", asbuilt_md)):
     b, e = "<!-- BEGIN:%s -->" % name, "<!-- END:%s -->" % name
     if b in s and e in s:
         s = s[: s.index(b) + len(b)] + "\n" + md + "\n" + s[s.index(e):]
